@@ -35,11 +35,13 @@ EvalE(x, val) ==
     [] x.k = "and" -> EvalE(x.l, val) /\ EvalE(x.r, val)
     [] x.k = "or"  -> EvalE(x.l, val) \/ EvalE(x.r, val)
     [] x.k = "not" -> ~EvalE(x.a, val)
+    [] x.k = "ite" -> IF EvalE(x.c, val) THEN EvalE(x.t, val) ELSE EvalE(x.e, val)     \* conditional expression  t if c else e
     [] OTHER       -> FALSE
 NamesE(x) ==
   CASE x.k \in {"eq", "ne"}  -> {x.n}
     [] x.k \in {"and", "or"} -> NamesE(x.l) \cup NamesE(x.r)
     [] x.k = "not"           -> NamesE(x.a)
+    [] x.k = "ite"           -> NamesE(x.c) \cup NamesE(x.t) \cup NamesE(x.e)
     [] OTHER                 -> {}
 
 HasExpr(F)  == F.expr.k # "none"
@@ -53,7 +55,9 @@ SubscribedEnts(F) == { nm.e : nm \in { w \in Watch(F) : w.f # "oldx" } }
 ValueChanged(n) == n.new.v # n.old.v           \* values compare as strings; Absent has v = "-"
 AttrChanged(n)  == n.new.x # n.old.x
 \* any-change forms "d.e", "d.e.attr", "d.e.*"
-AnyMatch(F, n) == \E nm \in AnyNames(F) : nm.e = n.e /\
+\* (watch= replaces the extracted set - "when (and only when) a variable in this set changes, the trigger expression is
+\* evaluated": a change of an entity outside watch= starts nothing, any-change form or not)
+AnyMatch(F, n) == n.e \in SubscribedEnts(F) /\ \E nm \in AnyNames(F) : nm.e = n.e /\
                      ( (nm.f = "v" /\ ValueChanged(n)) \/ (nm.f \in {"x", "*"} /\ AttrChanged(n)) )
 \* a watched variable or attribute changed
 WatchedChanged(F, n) == \E nm \in Watch(F) : nm.e = n.e /\
